@@ -417,8 +417,8 @@ def backtrack_cut(run, ctx):
             # names the final value of X goes by
             names_ = {X}
             for k_, v_ in lets.items():
-                if v_ in names_ and re.match(r"^\w+$", k_):
-                    names_.add(k_)
+                if re.match(r"^\w+$", k_) and (v_ in names_ or any(v_.endswith("; %s" % x_) for x_ in names_)):
+                    names_.add(k_)      # an alias, or the value of the block that computed it
             for k_, v_ in lets.items():
                 mt = H.pat_match("({s},{e})", k_)
                 if mt and re.search(r"\(\w+,%s\)$" % re.escape(X), v_):
